@@ -7,7 +7,10 @@ props = [json.loads(l) for l in open(os.path.join(ROOT, 'properties.jsonl'))]
 TECH = 'symbolic execution of the real Python source on a symbolic tensor shim (exact polynomials) + z3 (QF_LRA/QF_NRA) per output element; sat models replayed on real torch'
 BASE_NOTE = ('Bounded: holds for every real-valued input of each enumerated configuration (wavelet/filter table, mode, J, shapes listed in evidence.coverage.bounds); '
              'nothing is claimed outside those lists. Real-arithmetic semantics (float rounding inside ATen kernels is outside). Trusted: z3, the symbolic shim '
-             '(cross-checked against real torch on the whole operator for every configuration), the reference packages used as oracle.')
+             '(cross-checked against real torch on the whole operator for every configuration), the reference packages used as oracle. '
+             'Also covered in each configuration list: calling contexts (no_grad, inputs requiring grad, transposed / channels-last storage), user-supplied filter banks; '
+             'implementations that select values by magnitude are decided with the defining constraints on boxes of radius 1, 2^-30, 2^-60 (relative tolerance); '
+             'torch.empty-style allocations are fresh unconstrained atoms, so a result depending on never-written memory is reported (replayed with NaN-poisoned allocators).')
 
 CLAIMED = {
  'C01': dict(text='For each enumerated (wavelet, mode, J, size, batch) the forward DWT is executed symbolically from /repo source; z3 shows that no input in [-1,1]^n '
